@@ -386,4 +386,9 @@ complete text or nothing" is stated: it is false for the current code. -/
 theorem serialize_truncates : serText (serialize exVal 0 (failAt 3) {}) = some [91, 49, 44, 34, 34, 93] := by decide
 
 
+
+/-- every source fact this property's model consumes was located in the current source by tools/extract (a fact that is not
+found is emitted with a placeholder value; this obligation then fails and the check uses the reference model) -/
+theorem source_facts_located_c08 : JsonC.Generated.factsFound_alloc = true := by decide
+
 end JsonC.Alloc
